@@ -56,26 +56,93 @@ def _env(extra=None):
     return e
 
 
-def _run_batch(module, ct, pt, flags, jobs):
-    """one worker process for a list of jobs; returns {job id: result}"""
-    budget = len(jobs) * (ct * 1.5 + 20) + 60
+class _Worker:
+    """persistent worker process for one (module, timeouts, flags) group; jobs are fed one at a time"""
+
+    def __init__(self, key):
+        self.key = key
+        self.p = None
+
+    def start(self):
+        module, ct, pt, flags = self.key
+        self.p = subprocess.Popen([PY, "-m", "engine.worker", module, str(ct), str(pt), *flags], stdin=subprocess.PIPE,
+                                  stdout=subprocess.PIPE, stderr=subprocess.DEVNULL, text=True, cwd=ROOT, env=_env())
+
+    def run(self, job):
+        import select as _select
+        if self.p is None or self.p.poll() is not None:
+            self.start()
+        ct = self.key[1]
+        t0 = time.time()
+        budget = ct * 1.5 + 45
+        try:
+            self.p.stdin.write(json.dumps({"id": job["id"], "func": job["func"], "shard": job["shard"]}) + "\n")
+            self.p.stdin.flush()
+            while True:
+                left = budget - (time.time() - t0)
+                if left <= 0:
+                    raise TimeoutError()
+                r, _, _ = _select.select([self.p.stdout], [], [], left)
+                if not r:
+                    raise TimeoutError()
+                line = self.p.stdout.readline()
+                if line == "":
+                    raise EOFError()
+                if line.startswith("RESULT "):
+                    return json.loads(line[7:])
+        except TimeoutError:
+            self.stop()
+            return {"id": job["id"], "state": "CANNOT_CONFIRM", "message": "worker exceeded its wall budget (%.0fs) and was killed" % budget,
+                    "paths": 0, "solver_calls": 0, "solver_s": 0.0, "wall_s": time.time() - t0}
+        except (EOFError, BrokenPipeError, OSError):
+            self.stop()
+            return {"id": job["id"], "state": "WORKER_DIED", "message": "worker process died", "paths": 0,
+                    "solver_calls": 0, "solver_s": 0.0, "wall_s": time.time() - t0}
+
+    def stop(self):
+        if self.p is not None:
+            try:
+                self.p.kill()
+                self.p.wait(timeout=10)
+            except Exception:
+                pass
+            self.p = None
+
+
+def _run_queue(jobs_by_key):
+    """dynamic scheduling: NCPU threads, each owning one worker process at a time, pull jobs from a shared queue"""
+    import queue
+    import threading
+    q = queue.Queue()
+    for key, js in jobs_by_key.items():
+        for j in js:
+            q.put((key, j))
     out = {}
-    t0 = time.time()
-    try:
-        p = subprocess.run([PY, "-m", "engine.worker", module, str(ct), str(pt), *flags], input=json.dumps(jobs),
-                           capture_output=True, text=True, timeout=budget, cwd=ROOT, env=_env())
-        stdout, stderr = p.stdout, p.stderr
-    except subprocess.TimeoutExpired as e:
-        stdout = e.stdout.decode() if isinstance(e.stdout, bytes) else (e.stdout or "")
-        stderr = "worker timed out after %.0fs" % budget
-    for line in stdout.splitlines():
-        if line.startswith("RESULT "):
-            r = json.loads(line[7:])
-            out[r["id"]] = r
-    for j in jobs:
-        if j["id"] not in out:
-            out[j["id"]] = {"id": j["id"], "state": "WORKER_DIED", "message": (stderr or "")[-800:], "paths": 0,
-                            "solver_calls": 0, "solver_s": 0.0, "wall_s": time.time() - t0}
+    lock = threading.Lock()
+
+    def loop():
+        w = None
+        while True:
+            try:
+                key, j = q.get_nowait()
+            except queue.Empty:
+                break
+            if w is None or w.key != key:
+                if w is not None:
+                    w.stop()
+                w = _Worker(key)
+            r = w.run(j)
+            with lock:
+                out[r["id"]] = r
+        if w is not None:
+            w.stop()
+
+    n = sum(len(v) for v in jobs_by_key.values())
+    ts = [threading.Thread(target=loop) for _ in range(max(1, min(NCPU, n)))]
+    for t in ts:
+        t.start()
+    for t in ts:
+        t.join()
     return out
 
 
@@ -196,18 +263,9 @@ def run_property(pid, tier, obligations, validators=(), assumptions=(), explanat
             script_jobs.append(j)
         else:
             groups.setdefault((ob.module, ob.cond_timeout, ob.path_timeout, ob.flags), []).append(j)
-    batches = []
-    for key, js in groups.items():
-        nb = max(1, min(len(js), NCPU * 3))
-        size = (len(js) + nb - 1) // nb
-        for i in range(0, len(js), size):
-            batches.append((key, js[i:i + size]))
-    with cf.ThreadPoolExecutor(max_workers=NCPU) as ex:
-        futs = [ex.submit(_run_batch, k[0], k[1], k[2], k[3],
-                          [{"id": j["id"], "func": j["func"], "shard": j["shard"]} for j in js]) for k, js in batches]
+    with cf.ThreadPoolExecutor(max_workers=max(1, min(4, NCPU))) as ex:
         sfuts = [ex.submit(_run_script, obligations[j["ob"]], j) for j in script_jobs]
-        for f in futs:
-            results.update(f.result())
+        results.update(_run_queue(groups))
         for f in sfuts:
             r = f.result()
             results[r["id"]] = r
